@@ -793,7 +793,7 @@ func observe(hs []value.Value, cur int, probes []string) stepObs {
 	}
 	o.exported = ce.got
 	// equality with the most recent earlier values and with itself, both directions
-	lo := cur - 7
+	lo := cur - 4
 	if lo < 0 {
 		lo = 0
 	}
@@ -1351,16 +1351,16 @@ func c13Corpus() []*history {
 	return hsts
 }
 
-const c13PerShard = 120
+const c13PerShard = 64
 
 func cmdC13(seed int64, tier, outDir string) {
-	n := 600
+	n := 320
 	if tier == "thorough" {
 		n = 20000
 	}
 	r := NewRng(seed)
 	sum := NewSummary("C13", seed, tier)
-	sum.Rule = "histories of up to 15 map operations (literal, host storages RealMap/ToMap/ToMapReflection/FuncMap/bin/EmptyMap, put, +, replace with replacement keys inside and outside the original key set, eval, map, accept, combine) over pools of 5-8 colliding keys (incl. '', quoted and non-ASCII keys), 18% of them replace chains deeper than the flattening threshold, run through value.New().Generate with handles as arguments; after every step all observers (size, list, string, member access, get, isAvail, ~, map, accept, export, = in both directions with the 8 most recent values) are applied. Non-trivial = (representation tree as reported by VerifMapRepr, observer) with wrapper nesting depth >= 2; distinct by that pair"
+	sum.Rule = "histories of up to 15 map operations (literal, host storages RealMap/ToMap/ToMapReflection/FuncMap/bin/EmptyMap, put, +, replace with replacement keys inside and outside the original key set, eval, map, accept, combine) over pools of 5-8 colliding keys (incl. '', quoted and non-ASCII keys), 18% of them replace chains deeper than the flattening threshold, run through value.New().Generate with handles as arguments; after every step all observers (size, list, string, member access, get, isAvail, ~, map, accept, export, = in both directions with the 5 most recent values (itself included)) are applied. Non-trivial = (representation tree as reported by VerifMapRepr, observer) with wrapper nesting depth >= 2; distinct by that pair"
 	cw := NewCaseWriter(outDir, "From P2 Require Import Base.Prelude Lib.MapLib Run.C13Run.", "c13_case", "c13_id", "c13_im", "c13_is", 1<<30)
 	if optReplay != "" {
 		var h history
